@@ -1,3 +1,13 @@
+//! lrv-chip: behavioural SPI-level chip models (SX126x, SX127x) and the monitors that need them
+//! (C18 receive-buffer safety, C14 driver/chip state agreement).
+mod bus;
+mod c14;
+mod c18;
+mod chip126x;
+mod chip127x;
+mod exec;
+mod rig;
+
 fn main() {
-    lrv_core::runner::main(&[]);
+    lrv_core::runner::main(&[&c18::C18, &c14::C14]);
 }
